@@ -79,7 +79,7 @@ pub fn check_c05(c: &SCase) -> Verdict {
         return v;
     }
     holds!(check_stats(c.coin, &all, &st));
-    let mut pass = Pass { nontrivial: false, key: 0, classes: vec![format!("coin={}", c.coin.cli())], known: vec![], sub_evals: c.scripts.len() as u64, sample: None };
+    let mut pass = Pass { nontrivial: false, key: 0, classes: vec![format!("coin={}", c.coin.cli())], known: vec![], sub_evals: c.scripts.len() as u64, sample: None, extra_keys: vec![] };
     let mut types = std::collections::BTreeSet::new();
     let mut templ = 0;
     for s in &c.scripts {
@@ -158,7 +158,7 @@ pub fn check_c06(c: &SCase) -> Verdict {
         classes.push(format!("type={}", t.report_name()));
     }
     let sample = serde_json::json!({"coin": c.coin.cli(), "scripts": c.scripts.len(), "with_pushdata_or_nop_or_template": interesting, "first_scripts": c.scripts.iter().take(4).map(|s| vpmodel::hashes::hex(&s[..s.len().min(80)])).collect::<Vec<_>>()});
-    Verdict::Pass(Pass { nontrivial: interesting >= 3, key: key_of(c), classes, known: vec![], sub_evals: c.scripts.len() as u64, sample: Some(sample) })
+    Verdict::Pass(Pass { nontrivial: interesting >= 3, key: key_of(c), classes, known: vec![], sub_evals: c.scripts.len() as u64, sample: Some(sample), extra_keys: vec![] })
 }
 
 fn run_c06(eng: &Engine, a: &Args) {
@@ -238,7 +238,7 @@ pub fn check_c16(c: &SCase) -> Verdict {
     classes.sort();
     classes.dedup();
     let sample = serde_json::json!({"coin": c.coin.cli(), "range": [start, end], "scripts": c.scripts.iter().take(5).map(|s| vpmodel::hashes::hex(&s[..s.len().min(60)])).collect::<Vec<_>>()});
-    Verdict::Pass(Pass { nontrivial, key: key_of(c), classes, known: vec![], sub_evals: c.scripts.len() as u64, sample: Some(sample) })
+    Verdict::Pass(Pass { nontrivial, key: key_of(c), classes, known: vec![], sub_evals: c.scripts.len() as u64, sample: Some(sample), extra_keys: vec![] })
 }
 
 fn run_c16(eng: &Engine, a: &Args) {
